@@ -2,6 +2,9 @@
 //! cfg on, plus `verif-*` sub-commands for cli-crate functions.
 use jj_cli::cli_util::CliRunner;
 
+mod verif_parse;
+mod verif_text;
+
 fn main() -> std::process::ExitCode {
     let args: Vec<String> = std::env::args().collect();
     if args.len() >= 2 && args[1].starts_with("verif-") {
@@ -11,6 +14,8 @@ fn main() -> std::process::ExitCode {
 }
 
 fn verif(cmd: &str, _args: &[String]) -> std::process::ExitCode {
+    if cmd.starts_with("verif-textwidth") { return verif_text::run(cmd, _args); }
+    if cmd.starts_with("verif-quote") || cmd.starts_with("verif-parse") { return verif_parse::run(cmd, _args); }
     eprintln!("unknown verif command {cmd}");
     std::process::ExitCode::from(2)
 }
